@@ -126,13 +126,30 @@ theorem folded_fft_is_direct_sum {K : Type} [CommSemiring K] (pw : Int → K) (R
     rw [this]; ring
   rw [this, hadd, hper, mul_one]
 
-/-- non-vacuity: `ζ = -1` (grid of 2 = 1·2 points), R-vectors −3 … 3 folded into a box of 2 -/
+/-- non-vacuity: `ζ = -1` (a grid of 2 points: 2 = 1·2 = 2·1) satisfies both hypotheses; R-vectors −3 … 3 are folded
+    into a box of 2 (resp. 1) -/
+def pwSign : Int → Rat := fun n => if n % 2 = 0 then 1 else -1
+
+theorem pwSign_add (a b : Int) : pwSign (a + b) = pwSign a * pwSign b := by
+  unfold pwSign
+  rcases Int.emod_two_eq_zero_or_one a with ha | ha <;> rcases Int.emod_two_eq_zero_or_one b with hb | hb <;>
+    simp [Int.add_emod, ha, hb]
+
+theorem pwSign_per (d f : Nat) (h : d * f = 2) (t : Int) : pwSign ((d : Int) * (f : Int) * t) = 1 := by
+  have : (d : Int) * (f : Int) = 2 := by exact_mod_cast h
+  unfold pwSign
+  rw [this]
+  simp
+
+example (X : Int → Rat) (m : Nat) :
+    foldedFT pwSign [-3, -2, -1, 0, 1, 2, 3] X 1 2 0 m = directFT pwSign [-3, -2, -1, 0, 1, 2, 3] X (m * 1 + 0) :=
+  folded_fft_is_direct_sum pwSign _ X 1 2 0 m (by norm_num) pwSign_add (pwSign_per 1 2 rfl)
+
 example :
-    let pw : Int → Rat := fun n => if n % 2 = 0 then 1 else -1
     let Rs : List Int := [-3, -2, -1, 0, 1, 2, 3]
     let X : Int → Rat := fun R => (R + 5 : Int)
-    foldedFT pw Rs X 1 2 0 1 = directFT pw Rs X 1 ∧ directFT pw Rs X 1 = -5 ∧
-    foldedFT pw Rs X 2 1 1 0 = directFT pw Rs X 1 := by
+    foldedFT pwSign Rs X 1 2 0 1 = directFT pwSign Rs X 1 ∧ directFT pwSign Rs X 1 = -5 ∧
+    foldedFT pwSign Rs X 2 1 1 0 = directFT pwSign Rs X 1 := by
   decide +kernel
 
 /-! ## T4 — the cell of a k-point (used by the tetrahedron method) has the size of the full grid for every factorisation -/
